@@ -2185,3 +2185,405 @@ def rule_rc2(ctx, rels):
         r.note("RC2", ",".join(rels), "constructor calls",
                "no constructor call with an argument of known convention "
                "(not judged)")
+
+
+def rule_agg1(ctx):
+    r = ctx.r
+    r.rule("AGG1", "`Representation.dtype` types the buffers of every derived "
+                   "representation (adjoint, tensor product, identity of the "
+                   "empty word), so it summarises ALL stored generators: "
+                   "where a generator is stored, `self._dtype` is combined "
+                   "with what is already there (np.result_type / "
+                   "promote_types over the stored matrices or the previous "
+                   "value), never overwritten with the dtype of the one "
+                   "matrix being stored. Last-writer-wins makes a "
+                   "representation with a complex and then a real generator "
+                   "'float64', and the adjoint drops the imaginary parts")
+    f = ctx.p.get_function(REP, "Representation._set_generator")
+    r.analysed(f)
+    params = {p for p in f.params if p != "self"}
+    stores = [st for st in ast.walk(f.node) if isinstance(st, ast.Assign)
+              and len(st.targets) == 1
+              and isinstance(st.targets[0], ast.Attribute)
+              and st.targets[0].attr == "_dtype"
+              and dotted(st.targets[0].value) == "self"]
+    if not stores:
+        r.note("AGG1", loc(f, f.node), "_set_generator",
+               "`self._dtype` is not assigned here (not judged)")
+        return
+    for st in stores:
+        v = st.value
+        names = {dotted(x) for x in ast.walk(v)
+                 if isinstance(x, (ast.Attribute, ast.Name))}
+        combines = any(n.startswith(("self._dtype", "self.dtype",
+                                     "self.generators")) for n in names) \
+            or any(isinstance(c, ast.Call) and dotted(c.func).split(".")[-1]
+                   in ("result_type", "promote_types", "find_common_type",
+                       "common_type") and len(c.args) + len(c.keywords) >= 1
+                   and (len(c.args) >= 2 or any(
+                       isinstance(a, ast.Starred) for a in c.args))
+                   for c in ast.walk(v))
+        single = isinstance(v, ast.Attribute) and v.attr == "dtype" \
+            and isinstance(v.value, ast.Name) and v.value.id in params
+        inst = "_set_generator:_dtype"
+        # `if <no generator stored yet>: self._dtype = matrix.dtype`
+        from .common import path_conditions
+        defs = single_defs(f.node)
+
+        def says_empty(t, pol):
+            if isinstance(t, ast.Name) and t.id in defs:
+                t = defs[t.id]
+            if isinstance(t, ast.UnaryOp) and isinstance(t.op, ast.Not):
+                return says_empty(t.operand, not pol)
+            txt = ast.unparse(t)
+            if "self.generators" not in txt:
+                return False
+            if isinstance(t, ast.Compare) and len(t.ops) == 1 \
+                    and isinstance(t.left, ast.Call) \
+                    and dotted(t.left.func) == "len" \
+                    and const_value(t.comparators[0]) == 0:
+                if isinstance(t.ops[0], ast.Eq):
+                    return pol
+                if isinstance(t.ops[0], (ast.NotEq, ast.Gt)):
+                    return not pol
+            if isinstance(t, ast.Attribute) and dotted(t) == "self.generators":
+                return not pol          # `if self.generators:` -> non-empty
+            return False
+        first_only = any(says_empty(t, pol) for t, pol in
+                         path_conditions(f.node).get(id(st), []))
+        if combines:
+            r.ok("AGG1", inst, loc(f, st), norm_stmt(st)[:80],
+                 "combined with the generators already stored")
+        elif single and first_only:
+            r.ok("AGG1", inst + ":first", loc(f, st), norm_stmt(st)[:80],
+                 "the first generator: nothing to combine with")
+        elif single:
+            r.violation(
+                "AGG1", f"{f.fq}|_dtype", loc(f, st), norm_stmt(st)[:120],
+                f"`self._dtype` is overwritten with the dtype of the one "
+                f"matrix being stored (`{ast.unparse(v)}`): after a complex "
+                "generator followed by a real one the representation "
+                "reports float64, and gln_adjoint / sln_adjoint / "
+                "tensor_product build float buffers -- the images of words "
+                "containing the complex generator lose their imaginary "
+                "parts (ComplexWarning only)", instance=inst)
+        else:
+            r.note("AGG1", loc(f, st), norm_stmt(st)[:80],
+                   "form of the dtype update not recognised (not judged)")
+
+
+def rule_ret1(ctx, rels):
+    r = ctx.r
+    r.rule("RET1", "a method with an `inplace` flag never returns the object "
+                   "itself when called with inplace=False: the function is "
+                   "specialised to inplace=False (flag folding + forward "
+                   "substitution of locals) and no reachable return "
+                   "expression may be `self`. Returning the original 'because "
+                   "nothing had to change' makes later edits of the result "
+                   "edit the original as well")
+    n = 0
+    for rel in rels:
+        mod = ctx.p.module_by_rel(rel)
+        for f in ctx.p.all_functions:
+            if f.module is not mod or "inplace" not in f.params \
+                    or f.cls is None:
+                continue
+            n += 1
+            r.analysed(f)
+            try:
+                rets, _env = forward_subst(f.node, {"inplace": False})
+            except Exception as ex:      # noqa: BLE001 -- not judged
+                r.note("RET1", loc(f, f.node), f.qualname,
+                       f"could not specialise to inplace=False ({ex})")
+                continue
+            inst = f"{f.qualname}:inplace=False"
+            bad = [e for e in rets if isinstance(e, ast.Name)
+                   and e.id == "self"]
+            if bad:
+                r.violation(
+                    "RET1", f"{f.fq}|returns-self", loc(f, f.node),
+                    f.qualname,
+                    f"with inplace=False {f.qualname} can return `self`: "
+                    "the caller gets the original object where the contract "
+                    "promises a new one, so editing the result (add_edges, "
+                    "delete_vertex ...) changes the original's views too",
+                    instance=inst)
+            else:
+                r.ok("RET1", inst, loc(f, f.node), "",
+                     f"{len([e for e in rets if e is not None])} return "
+                     "expression(s), none is `self`")
+    if n == 0:
+        r.note("RET1", ",".join(rels), "inplace",
+               "no method with an `inplace` flag (not judged)")
+
+
+def rule_lru1(ctx, rels):
+    r = ctx.r
+    r.rule("LRU1", "functools.lru_cache / cache hashes its arguments: it is "
+                   "never put on a function that takes array data (a "
+                   "parameter that flows into a NumPy / utils call or "
+                   "arithmetic). ndarrays, and 0-d arrays in particular, "
+                   "are unhashable, so the same number packaged as an array "
+                   "raises TypeError where the float works")
+    n = 0
+    for rel in rels:
+        mod = ctx.p.module_by_rel(rel)
+        for f in ctx.p.all_functions:
+            if f.module is not mod:
+                continue
+            decos = [d for d in f.node.decorator_list
+                     if dotted(d.func if isinstance(d, ast.Call) else d)
+                     .split(".")[-1] in ("lru_cache", "cache")]
+            if not decos:
+                continue
+            n += 1
+            r.analysed(f)
+            params = {p for p in f.params if p not in ("self", "cls")}
+            used = set()
+            for c in ast.walk(f.node):
+                if isinstance(c, ast.Call) and dotted(c.func).startswith(
+                        ("np.", "numpy.", "utils.")):
+                    for a in ast.walk(c):
+                        if isinstance(a, ast.Name) and a.id in params:
+                            used.add(a.id)
+                if isinstance(c, ast.BinOp):
+                    for a in (c.left, c.right):
+                        if isinstance(a, ast.Name) and a.id in params:
+                            used.add(a.id)
+            inst = f"{f.qualname}:lru_cache"
+            if used:
+                r.violation(
+                    "LRU1", f"{f.fq}|lru_cache", loc(f, decos[0]),
+                    ast.unparse(decos[0])[:80],
+                    f"{f.qualname} is memoised with "
+                    f"`{ast.unparse(decos[0])[:40]}` but its parameter(s) "
+                    f"{', '.join(sorted(used))} are numeric / array data: a "
+                    "0-d or n-d ndarray argument (np.array(pi / 4), a vector "
+                    "of angles) is unhashable and raises TypeError, while "
+                    "the same value as a Python float works", instance=inst)
+            else:
+                r.ok("LRU1", inst, loc(f, decos[0]), "",
+                     "no array-valued parameter")
+    if n == 0:
+        r.ok("LRU1", "modules", ",".join(rels), "",
+             "no lru_cache / cache decorator")
+
+
+def rule_own1(ctx):
+    r = ctx.r
+    r.rule("OWN1", "a CoxeterGroup owns its Coxeter matrix: where the "
+                   "constructor routes store the matrix they copy it "
+                   "(np.array(..), .copy(), a freshly built array); "
+                   "`np.asarray(param)` / the parameter itself keeps the "
+                   "caller's array, and a caller that reuses its work array "
+                   "for the next group of a family silently changes the "
+                   "labels of the groups built before")
+    cls = ctx.p.get_class(COX_REL, "CoxeterGroup")
+    n = 0
+    for f in cls.methods.values():
+        params = {p for p in f.params if p not in ("self", "cls")}
+        defs = single_defs(f.node)
+        for st in ast.walk(f.node):
+            if not (isinstance(st, ast.Assign) and len(st.targets) == 1
+                    and isinstance(st.targets[0], ast.Attribute)
+                    and st.targets[0].attr == "coxeter_matrix"
+                    and dotted(st.targets[0].value) == "self"):
+                continue
+            n += 1
+            r.analysed(f)
+            v = st.value
+            if isinstance(v, ast.Name) and v.id in defs:
+                v = defs[v.id]
+            alias = None
+            if isinstance(v, ast.Name) and v.id in params:
+                alias = "the parameter itself"
+            elif isinstance(v, ast.Call) and dotted(v.func) in (
+                    "np.asarray", "np.asanyarray", "np.ascontiguousarray") \
+                    and v.args and isinstance(v.args[0], ast.Name) \
+                    and v.args[0].id in params:
+                alias = dotted(v.func) + " of the parameter (no copy for an "\
+                    "ndarray)"
+            inst = f"{f.qualname}:coxeter_matrix"
+            if alias:
+                r.violation(
+                    "OWN1", f"{f.fq}|coxeter_matrix", loc(f, st),
+                    norm_stmt(st)[:120],
+                    f"`self.coxeter_matrix` is {alias}: the group's labels "
+                    "change when the caller edits its array afterwards, so "
+                    "representations computed later are those of another "
+                    "group than the one constructed", instance=inst)
+            else:
+                r.ok("OWN1", inst, loc(f, st), norm_stmt(st)[:80],
+                     "stores its own array")
+    if n == 0:
+        r.note("OWN1", COX_REL, "coxeter_matrix",
+               "no assignment of self.coxeter_matrix found (not judged)")
+
+
+COX_REL = "geometry_tools/coxeter.py"
+
+
+_ORTHONORMAL = ("eigh", "qr", "svd", "indefinite_orthogonalize", "orth")
+
+
+def rule_pair1(ctx):
+    r = ctx.r
+    r.rule("PAIR1", "diagonalize_form returns (W, W^-1): (a) the matrix whose "
+                    "conjugate transpose is used as its inverse comes from "
+                    "an orthonormal source (eigh / qr / svd), never from the "
+                    "general eigensolver, whose eigenvectors are unit but not "
+                    "orthogonal inside a repeated eigenspace; (b) after "
+                    "their definitions W and W^-1 receive the same number "
+                    "of updates (the permutation is applied to both): an "
+                    "extra rescaling / sign normalisation of one of them "
+                    "leaves a pair that is not inverse")
+    f = ctx.p.get_function(CORE, "diagonalize_form")
+    r.analysed(f)
+    # (a)
+    n_a = 0
+    for st in ast.walk(f.node):
+        if not (isinstance(st, ast.Assign) and len(st.targets) == 1
+                and isinstance(st.targets[0], ast.Name)):
+            continue
+        v = st.value
+        core = v.args[0] if isinstance(v, ast.Call) and dotted(
+            v.func).split(".")[-1] in ("conjugate", "conj") and v.args else v
+        base = None
+        if isinstance(core, ast.Call) and isinstance(core.func, ast.Attribute) \
+                and core.func.attr == "swapaxes" and isinstance(
+                    core.func.value, ast.Name):
+            base = core.func.value.id
+        elif isinstance(core, ast.Attribute) and core.attr in ("T", "H") \
+                and isinstance(core.value, ast.Name):
+            base = core.value.id
+        if base is None or not st.targets[0].id.lower().endswith("inv"):
+            continue
+        n_a += 1
+        src = None
+        for d in ast.walk(f.node):
+            if isinstance(d, ast.Assign) and isinstance(d.value, ast.Call):
+                names = [x.id for t in d.targets for x in ast.walk(t)
+                         if isinstance(x, ast.Name)]
+                if base in names and d.lineno <= st.lineno:
+                    src = dotted(d.value.func).split(".")[-1]
+        inst = f"diagonalize_form:{st.targets[0].id}"
+        if src in _ORTHONORMAL:
+            r.ok("PAIR1", inst, loc(f, st), norm_stmt(st)[:80],
+                 f"`{base}` comes from {src}: its conjugate transpose is its "
+                 "inverse")
+        elif src in ("eig", "eigvals"):
+            r.violation(
+                "PAIR1", f"{f.fq}|{st.targets[0].id}|source", loc(f, st),
+                norm_stmt(st)[:120],
+                f"`{st.targets[0].id}` is the conjugate transpose of `{base}`, "
+                f"which comes from `{src}`: a general eigensolver does not "
+                "return orthogonal eigenvectors inside a repeated eigenspace "
+                "(every Coxeter diagram with a symmetry), so the transpose "
+                "is not the inverse and W^T B W is not diagonal",
+                instance=inst)
+        else:
+            r.note("PAIR1", loc(f, st), norm_stmt(st)[:80],
+                   f"source of `{base}` not recognised (not judged)")
+    # (b)
+    pair = None
+    for rt in ast.walk(f.node):
+        if isinstance(rt, ast.Return) and isinstance(rt.value, ast.Tuple) \
+                and len(rt.value.elts) == 2 and all(
+                    isinstance(e, ast.Name) for e in rt.value.elts):
+            pair = tuple(e.id for e in rt.value.elts)
+    if pair is None:
+        r.note("PAIR1", loc(f, f.node), "diagonalize_form",
+               "no `return (W, Winv)` found (not judged)")
+        return
+
+    def updates(name):
+        out = []
+        for st in ast.walk(f.node):
+            if isinstance(st, ast.Assign) and len(st.targets) == 1:
+                t = st.targets[0]
+                if isinstance(t, ast.Name) and t.id == name and any(
+                        isinstance(x, ast.Name) and x.id == name
+                        for x in ast.walk(st.value)):
+                    out.append(st)
+                if isinstance(t, ast.Subscript) and dotted(t.value) == name:
+                    out.append(st)
+            if isinstance(st, ast.AugAssign):
+                t = st.target
+                if (isinstance(t, ast.Name) and t.id == name) or (
+                        isinstance(t, ast.Subscript)
+                        and dotted(t.value) == name):
+                    out.append(st)
+        return out
+    ua, ub = updates(pair[0]), updates(pair[1])
+    inst = "diagonalize_form:pair"
+    if len(ua) == len(ub):
+        r.ok("PAIR1", inst, loc(f, f.node), "",
+             f"`{pair[0]}` and `{pair[1]}` are each updated {len(ua)} "
+             "time(s) after their definition")
+    else:
+        more, st_ = (pair[0], ua) if len(ua) > len(ub) else (pair[1], ub)
+        r.violation(
+            "PAIR1", f"{f.fq}|updates", loc(f, st_[-1]),
+            norm_stmt(st_[-1])[:120],
+            f"`{pair[0]}` is updated {len(ua)} time(s) after its "
+            f"definition and `{pair[1]}` {len(ub)}: `{more}` receives a "
+            "modification (a rescaling, a sign normalisation) that its "
+            "partner does not, so the returned pair is no longer a matrix "
+            "and its inverse and the conjugated Coxeter generators stop "
+            "being involutions", instance=inst)
+
+
+def rule_invmap1(ctx, rels):
+    r = ctx.r
+    r.rule("INVMAP1", "a dictionary comprehension that turns a "
+                      "`key -> value` map around (`{value: .. for key, value "
+                      "in m.items()}`) keeps ONE entry per value: where the "
+                      "new entry is a list that is meant to collect the "
+                      "keys (`[key]`), keys that share a value overwrite "
+                      "each other. Regrouping label -> target rows as "
+                      "target -> [labels] this way loses parallel edges")
+    n = 0
+    for rel in rels:
+        mod = ctx.p.module_by_rel(rel)
+        for f in ctx.p.all_functions:
+            if f.module is not mod:
+                continue
+            for dc in ast.walk(f.node):
+                if not (isinstance(dc, ast.DictComp)
+                        and len(dc.generators) == 1):
+                    continue
+                g = dc.generators[0]
+                if not (isinstance(g.target, ast.Tuple)
+                        and len(g.target.elts) == 2
+                        and all(isinstance(e, ast.Name)
+                                for e in g.target.elts)
+                        and isinstance(g.iter, ast.Call)
+                        and isinstance(g.iter.func, ast.Attribute)
+                        and g.iter.func.attr == "items"):
+                    continue
+                kname, vname = (e.id for e in g.target.elts)
+                if not (isinstance(dc.key, ast.Name) and dc.key.id == vname):
+                    continue
+                n += 1
+                r.analysed(f)
+                inst = f"{f.qualname}:inverse-map"
+                collects = isinstance(dc.value, (ast.List, ast.Set)) \
+                    and len(dc.value.elts) == 1 \
+                    and isinstance(dc.value.elts[0], ast.Name) \
+                    and dc.value.elts[0].id == kname
+                if collects:
+                    r.violation(
+                        "INVMAP1", f"{f.fq}|{ast.unparse(dc)[:50]}",
+                        loc(f, dc), ast.unparse(dc)[:120],
+                        f"`{ast.unparse(dc)[:70]}` builds one singleton list "
+                        f"per `{vname}`: when two `{kname}`s map to the same "
+                        f"`{vname}` (two labels on edges to one target) the "
+                        "later one replaces the earlier, so the outgoing / "
+                        "incoming views list fewer edges than the label "
+                        "view", instance=inst)
+                else:
+                    r.ok("INVMAP1", inst, loc(f, dc), ast.unparse(dc)[:80],
+                         "does not collect keys into singleton lists")
+    if n == 0:
+        r.ok("INVMAP1", "modules", ",".join(rels), "",
+             "no map is inverted by a comprehension")
